@@ -366,6 +366,7 @@ func runC02(w *World, c *Check) {
 		lw3 := NewLockWalker(w)
 		lw3.Scope = lw.Scope
 		sawKey, sawName := false, false
+		aP := substParams(isReplay, "@1") // the authenticator parameter
 		keyTerms := map[string]string{} // rendered key -> where
 		lw3.Visit = func(ctx *LockCtx, in ssa.Instruction, held []Held) {
 			where := w.Pos(InstrPos(in))
@@ -373,12 +374,12 @@ func runC02(w *World, c *Check) {
 				if types.Identical(mu.Map.Type().Underlying(), replay.Underlying()) {
 					k := ctx.FA.R.R(mu.Key)
 					keyTerms[k] = "insert at " + where
-					good := strings.Contains(k, "a.CTime") && strings.Contains(k, "a.Cusec")
+					good := strings.Contains(k, aP+".CTime") && strings.Contains(k, aP+".Cusec")
 					c.Decide(good, "C02.key", FuncKey(ctx.Fn), "replayMap insert key", where, "the key an authenticator is remembered under combines its CTime and Cusec", "key is "+k)
 				}
 				if types.Identical(mu.Map.Type().Underlying(), entries.Underlying()) {
 					k := ctx.FA.R.R(mu.Key)
-					c.Decide(strings.Contains(k, "a.CName"), "C02.key", FuncKey(ctx.Fn), "entries insert key", where, "the per-client map is keyed by the authenticator's CName", "key is "+k)
+					c.Decide(strings.Contains(k, aP+".CName"), "C02.key", FuncKey(ctx.Fn), "entries insert key", where, "the per-client map is keyed by the authenticator's CName", "key is "+k)
 				}
 				return
 			}
@@ -395,11 +396,11 @@ func runC02(w *World, c *Check) {
 			case "replayMap":
 				sawKey = true
 				keyTerms[idx] = "look-up at " + where
-				good := strings.Contains(idx, "a.CTime") && strings.Contains(idx, "a.Cusec")
+				good := strings.Contains(idx, aP+".CTime") && strings.Contains(idx, aP+".Cusec")
 				c.Decide(good, "C02.key", FuncKey(ctx.Fn), "replayMap key", where, "the replay-map key combines the authenticator's CTime and Cusec", "key is "+idx)
 			case "entries":
 				sawName = true
-				good := strings.Contains(idx, "a.CName")
+				good := strings.Contains(idx, aP+".CName")
 				c.Decide(good, "C02.key", FuncKey(ctx.Fn), "entries key", where, "the per-client map is keyed by the authenticator's CName", "key is "+idx)
 			}
 		}
